@@ -123,7 +123,7 @@ def shards(tier):
 
 
 def floors(tier):
-    scale = 1 if tier == 'quick' else 25
+    scale = 1 if tier == 'quick' else 15
     return {
         'windows_checked': 1200 * scale,
         'sequences_checked': 2000 * scale,
@@ -132,7 +132,7 @@ def floors(tier):
         'open_ended_windows': 500 * scale,
         'alias_checked': 23,
         'refusal_checked': 90,
-        'train_checked': 80 if tier == 'quick' else 1200,
+        'train_checked': 80 if tier == 'quick' else 800,
         'labels_checked': 300 * scale,
     }
 
@@ -243,7 +243,7 @@ def configs(ctx):
     """Deterministic global list of configurations (sharded by index)."""
     out = []
     turn = collections.Counter()
-    for dataset in range(ctx.pick(1, 50)):
+    for dataset in range(ctx.pick(1, 16)):
         for kind in KINDS:
             for semantic in SEMANTICS + ('unspecified',):
                 for rep in REPRS[kind] if semantic != 'unspecified' else ['native']:
@@ -423,9 +423,9 @@ def train_cases(ctx):
     for kind in KINDS:
         domain = DOMAIN[kind]
         falsy = next((i for i, v in enumerate(domain) if not v), 1)
-        tags = ctx.pick(['untrained', falsy, 3], ['untrained', None, 0, 1, 2, 3, 4, 5])
+        tags = ctx.pick(['untrained', falsy, 3], ['untrained', None, 0, 1, 3, 5])
         lowers = ctx.pick([None, falsy, 4], [None, 0, 1, 2, 3, 4, 5])
-        uppers = ctx.pick([None, 5], [None, 3, 5])
+        uppers = ctx.pick([None, 5], [None, 4])
         for semantic in ctx.pick([None], SEMANTICS):
             for tag in tags:
                 for lower in lowers:
